@@ -143,6 +143,11 @@ class Parser:
                         "Include file '%s' not found in '%s'", inc_file_path, fn
                     )
                     raise ex
+                except ValueError as ex:
+                    # not a usable file name (e.g. an embedded null byte)
+                    raise IOError(
+                        "Include file name %r cannot be used: %s" % (inc_file_path, ex)
+                    ) from ex
                 # recursively load any further includes
                 includes[idx] = self.load_includes(
                     include_text, fn=fn, _nested_includes=_nested_includes + 1
